@@ -212,52 +212,57 @@ def dStep (s : St) : DAct → Option St
       | .finishing => if s.spc = .cancelled then some { s with dpc := .returned } else none
       | _ => none
 
-def wStep (s : St) (i : Nat) : WAct → Option St
-  | .lockT =>
-      match s.thd, s.ws[i]? with
-      | .none, some .started =>
-          some { s with thd := .w i, ws := s.ws.set i .rcmdL, ts := s.ts.set i .rcmd }          -- blind write
-      | .none, some .connOk => some { s with thd := .w i, ws := s.ws.set i .updT }
-      | .none, some .connFail => some { s with thd := .w i, ws := s.ws.set i .resL, ts := s.ts.set i .failed }
-      | .none, some .reading => some { s with thd := .w i, ws := s.ws.set i .resL, ts := s.ts.set i .done }
-      | .none, some .closing => some { s with thd := .w i, ws := s.ws.set i .resL, ts := s.ts.set i .done }
-      | _, _ => none
-  | .time =>
-      -- the only time() call of a worker the protocol depends on: it separates taking thd_mutex from the
-      -- state update in `_update_connect_state` (and `_cancel_pending_threads` does not take thd_mutex)
-      match s.ws[i]? with
-      | some .updT =>
-          some { s with ws := s.ws.set i .updL,
-                        ts := s.ts.set i (if tsAt s i = .canceled then .canceled else .reading) }
-      | _ => none
-  | .unlockT =>
-      match s.ws[i]? with
-      | some .rcmdL => some { s with thd := .none, ws := s.ws.set i .ready }
-      | some .updL =>
-          some { s with thd := .none, ws := s.ws.set i (if tsAt s i = .canceled then .closing else .reading) }
-      | some .resL => some { s with thd := .none, ws := s.ws.set i .flushed }
-      | _ => none
-  | .connectBegin => match s.ws[i]? with
-      | some .ready => some { s with ws := s.ws.set i .connecting }
-      | _ => none
-  | .connectEnd ok => match s.ws[i]? with
-      | some .connecting => some { s with ws := s.ws.set i (if ok then .connOk else .connFail) }
-      | _ => none
-  | .destroyBegin => match s.ws[i]? with
-      | some .flushed => some { s with ws := s.ws.set i .tearing }
-      | _ => none
-  | .destroyEnd => match s.ws[i]? with
-      | some .tearing => some { s with ws := s.ws.set i .torn }
-      | _ => none
-  | .lock => match s.own, s.ws[i]? with
-      | .none, some .torn => some { s with own := .w i, tc := s.tc - 1, ws := s.ws.set i .locked }
-      | _, _ => none
-  | .signal => match s.ws[i]? with
-      | some .locked => some { s with sig := s.sig || s.dpc.isParked, ws := s.ws.set i .signaled }
-      | _ => none
-  | .unlock => match s.ws[i]? with
-      | some .signaled => some { s with own := .none, ws := s.ws.set i .done }
-      | _ => none
+/-- the local move of a worker: its next program counter; `canceled` = what the unprotected re-read
+    `if (a->state == DSH_CANCELED)` in `_update_connect_state` sees -/
+def wNext (a : WAct) (p : WP) (canceled : Bool) : Option WP :=
+  match a, p with
+  | .lockT, .started => some .rcmdL
+  | .lockT, .connOk => some .updT
+  | .lockT, .connFail => some .resL
+  | .lockT, .reading => some .resL
+  | .lockT, .closing => some .resL
+  | .time, .updT => some .updL
+  | .unlockT, .rcmdL => some .ready
+  | .unlockT, .updL => some (if canceled then .closing else .reading)
+  | .unlockT, .resL => some .flushed
+  | .connectBegin, .ready => some .connecting
+  | .connectEnd ok, .connecting => some (if ok then .connOk else .connFail)
+  | .destroyBegin, .flushed => some .tearing
+  | .destroyEnd, .tearing => some .torn
+  | .lock, .torn => some .locked
+  | .signal, .locked => some .signaled
+  | .unlock, .signaled => some .done
+  | _, _ => none
+
+/-- the write to `t[i].state` that goes with the move (all of them with thd_mutex held) -/
+def wWrite (a : WAct) (p : WP) (t : TS) : TS :=
+  match a, p with
+  | .lockT, .started => .rcmd                                   -- `a->state = DSH_RCMD`: a blind write
+  | .lockT, .connFail => .failed                                -- `a->state = result`
+  | .lockT, .reading => .done
+  | .lockT, .closing => .done                                   -- result is DSH_DONE for a canceled host too
+  | .time, .updT => if t = .canceled then .canceled else .reading   -- `_update_connect_state`
+  | _, _ => t
+
+/-- what a worker operation does to the shared protocol objects -/
+def wEffect (i : Nat) (s : St) : WAct → St
+  | .lockT => { s with thd := .w i }
+  | .unlockT => { s with thd := .none }
+  | .lock => { s with own := .w i, tc := s.tc - 1 }                    -- lock; threadcount--
+  | .signal => { s with sig := s.sig || s.dpc.isParked }               -- lost when nobody is parked
+  | .unlock => { s with own := .none }
+  | _ => s
+
+def wStep (s : St) (i : Nat) (a : WAct) : Option St :=
+  match s.ws[i]? with
+  | none => none
+  | some p =>
+    match wNext a p (tsAt s i == .canceled) with
+    | none => none
+    | some q =>
+      if (a = .lockT → s.thd = .none) ∧ (a = .lock → s.own = .none) then
+        some (wEffect i { s with ws := s.ws.set i q, ts := s.ts.set i (wWrite a p (tsAt s i)) } a)
+      else none
 
 def sStep (s : St) : SAct → Option St
   | .sigwait g => match s.spc with
